@@ -432,6 +432,31 @@ func c16Scenarios(thorough bool) []c16Scenario {
 		{"stats-vs-join-leave", d, 2, []c16Op{reg(0), reg(1)}, [][]c16Op{{join(0, "r"), {K: "leave", C: 0, R: "r"}}, {{K: "stats", C: 0, R: "r"}}, {{K: "mjoin", C: 1, R: "r"}}}},
 		{"double-close", d, 1, []c16Op{reg(0)}, [][]c16Op{{{K: "close", C: 0}}, {{K: "unreg", C: 0}}}},
 	}
+	// capacity: the hub's own channels are buffered at 256.  A path on which the hub goroutine (or a lock holder it waits
+	// for) queues one item per connection into such a channel works for small hubs and blocks for ever once a single
+	// event concerns more connections than the buffer holds.  300 connections whose send queues are full (slow
+	// consumers), then one hub-wide broadcast and one room broadcast (a single client thread, so the
+	// schedules differ only in where the hub loop is preempted; bound 1).
+	{
+		const n = 300
+		big := c16Cfg{HubLimit: n + 10, RoomLimit: n + 10, Queue: 1, Strategy: QueueStrategyDropNewest}
+		var setup, setupRoom []c16Op
+		for i := 0; i < n; i++ {
+			setup = append(setup, reg(i))
+		}
+		setupRoom = append(setupRoom, setup...)
+		for i := 0; i < n; i++ {
+			setupRoom = append(setupRoom, join(i, "r"))
+		}
+		for i := 0; i < n; i++ {
+			setup = append(setup, c16Op{K: "send", C: i})
+			setupRoom = append(setupRoom, c16Op{K: "send", C: i})
+		}
+		out = append(out,
+			c16Scenario{"capacity/broadcast-to-300-slow-consumers", big, n, setup, [][]c16Op{{{K: "bcast", C: 0}, {K: "count", C: 0}}}},
+			c16Scenario{"capacity/room-broadcast-to-300-slow-members", big, n, setupRoom, [][]c16Op{{{K: "bcastroom", C: 0, R: "r"}, {K: "count", C: 0}}}},
+		)
+	}
 	// generated: two clients, each with a short program on its own connection,
 	// plus the hub loop; from two setups.
 	perConn := func(c int) []c16Op {
@@ -600,7 +625,10 @@ func TestVerif_C16(t *testing.T) {
 	scs := c16Scenarios(p.Thorough)
 	res.Bounds["scenarios"] = len(scs)
 	for si, sc := range scs {
-		if !p.Mine(si) {
+		// hand-written scenarios (some have 10^5 schedules) are spread over all shards by their first-level
+		// alternatives; the many small generated ones are dealt out whole
+		spread := !strings.HasPrefix(sc.Name, "gen/")
+		if !spread && !p.Mine(si) {
 			continue
 		}
 		if p.Expired() {
@@ -610,7 +638,14 @@ func TestVerif_C16(t *testing.T) {
 		}
 		var r *c16Run
 		outcomes := vk.DistinctSet{}
-		st := vrt.Explore(c16Config(bound, p.Deadline), func() { r = &c16Run{sc: sc}; r.body() }, func(x *vrt.Exec) bool {
+		cfg := c16Config(bound, p.Deadline)
+		if strings.HasPrefix(sc.Name, "capacity/") {
+			cfg.MaxPreempt, cfg.MaxSteps = 1, 400000
+		}
+		if spread {
+			cfg.Shard, cfg.NShard = p.Shard, p.NShard
+		}
+		st := vrt.Explore(cfg, func() { r = &c16Run{sc: sc}; r.body() }, func(x *vrt.Exec) bool {
 			f := c16Judge(x, r)
 			var sig strings.Builder
 			sig.WriteString(c16Kind(f) + "|")
@@ -630,11 +665,11 @@ func TestVerif_C16(t *testing.T) {
 		res.States += int64(st.States)
 		res.Distinct += outcomes.Len()
 		res.Count("schedules", int64(st.Execs))
-		if outcomes.Len() > 1 {
+		if outcomes.Len() > 1 && (!spread || p.Shard == 0) {
 			res.Count("scenarios_with_several_outcomes", 1)
 		}
-		if !strings.HasPrefix(sc.Name, "gen/") {
-			res.Sample(10, map[string]any{"scenario": sc.Name, "threads": fmt.Sprint(sc.Threads), "schedules": st.Execs, "distinct_outcomes": outcomes.Len()})
+		if spread {
+			res.Sample(40, map[string]any{"scenario": sc.Name, "threads": fmt.Sprint(sc.Threads), "schedules_in_this_shard": st.Execs, "distinct_outcomes_in_this_shard": outcomes.Len(), "shard": fmt.Sprintf("%d/%d", p.Shard, p.NShard)})
 		}
 		if !st.Complete {
 			res.Exhaustive = false
